@@ -4,6 +4,7 @@
     tools/rs2v.py) are the model recursions, hence exact for every limb count. Statements only; proofs in Src/GenShiftP.v. *)
 From CB Require Import Model.SrcPrelude Model.Word Model.Limbs Model.Mul Model.ModArith Model.Sqrt Model.Div Model.Bits.
 From CB Require Import Src.GenPrim Src.GenShift Src.GenShiftP Proofs.WordP Proofs.LimbsP.
+From CB Require Import Model.DivL0 Src.GenUint Src.GenBits Src.GenBitsP.
 From Coq Require Import ZArith List.
 Import ListNotations.
 Open Scope Z_scope.
@@ -105,4 +106,67 @@ Example C05_src_runs :
   g_uint_shr1 2 [4; 6] = [2; 3] /\
   g_uint_shl_limb 3 [2 ^ 63 + 1; 0; 2 ^ 62] 2 = ([4; 2; 0], 1) /\
   g_uint_shl_limb 2 [5; 7] 0 = ([5; 7], 0).
+Proof. vm_compute. repeat split. Qed.
+
+
+(** ---- the constant-time shifts and the bit length (Src/GenBits.v, proofs in Src/GenBitsP.v): every limb count n >= 1 with
+    64 n < 2^32 (Uint::BITS is a u32) ---- *)
+
+(** leading_zeros (downward scan, u32 counter, ConstChoice flag) and Uint::bits are the limb-level models *)
+Theorem C05_src_leading_zeros : forall ls, wf ls -> 64 * Z.of_nat (length ls) < 2 ^ 32 ->
+  g_slice_leading_zeros ls = limbs_leading_zeros ls.
+Proof. exact g_slice_leading_zeros_eq. Qed.
+Print Assumptions C05_src_leading_zeros.
+
+Theorem C05_src_bits_exact : forall n y, length y = n -> wf y -> 64 * Z.of_nat n < 2 ^ 32 ->
+  g_uint_bits n y = (if eval y <=? 0 then 0 else Z.log2 (eval y) + 1).
+Proof. exact g_uint_bits_exact. Qed.
+Print Assumptions C05_src_bits_exact.
+
+(** Uint::overflowing_shl / overflowing_shr: the ladder of log2(BITS) fixed shifts selected bit by bit. The model returns
+    None where an inner `expect` of the source would panic; whenever it returns Some c the source text returns c *)
+Theorem C05_src_overflowing_shl : forall n a s c, length a = n -> (1 <= n)%nat -> 64 * Z.of_nat n < 2 ^ 32 -> 0 <= s < 2 ^ 32 ->
+  uint_overflowing_shl a s = Some c -> g_uint_overflowing_shl n a s = c.
+Proof. exact g_uint_overflowing_shl_eq. Qed.
+Print Assumptions C05_src_overflowing_shl.
+
+Theorem C05_src_overflowing_shr : forall n a s c, length a = n -> (1 <= n)%nat -> 64 * Z.of_nat n < 2 ^ 32 -> 0 <= s < 2 ^ 32 ->
+  uint_overflowing_shr a s = Some c -> g_uint_overflowing_shr n a s = c.
+Proof. exact g_uint_overflowing_shr_eq. Qed.
+Print Assumptions C05_src_overflowing_shr.
+
+(** hence the SOURCE constant-time shifts are exact for EVERY u32 shift: is_some iff s < BITS, value (a * 2^s) mod 2^BITS
+    resp. floor(a / 2^s) *)
+Theorem C05_src_overflowing_shl_exact : forall n a s, length a = n -> (1 <= n)%nat -> 64 * Z.of_nat n < 2 ^ 32 -> 0 <= s < 2 ^ 32 -> wf a ->
+  let r := g_uint_overflowing_shl n a s in
+  snd r = choice_of_bool (s <? 64 * Z.of_nat n) /\ wf (fst r) /\ length (fst r) = n /\
+  eval (fst r) = if s <? 64 * Z.of_nat n then (eval a * 2 ^ s) mod Bn n else 0.
+Proof. exact g_uint_overflowing_shl_exact. Qed.
+Print Assumptions C05_src_overflowing_shl_exact.
+
+Theorem C05_src_overflowing_shr_exact : forall n a s, length a = n -> (1 <= n)%nat -> 64 * Z.of_nat n < 2 ^ 32 -> 0 <= s < 2 ^ 32 -> wf a ->
+  let r := g_uint_overflowing_shr n a s in
+  snd r = choice_of_bool (s <? 64 * Z.of_nat n) /\ wf (fst r) /\ length (fst r) = n /\
+  eval (fst r) = if s <? 64 * Z.of_nat n then eval a / 2 ^ s else 0.
+Proof. exact g_uint_overflowing_shr_exact. Qed.
+Print Assumptions C05_src_overflowing_shr_exact.
+
+(** Uint::shl / Uint::shr (the `expect` wrappers) *)
+Theorem C05_src_shl : forall n a s v, length a = n -> (1 <= n)%nat -> 64 * Z.of_nat n < 2 ^ 32 -> 0 <= s < 2 ^ 32 ->
+  l0_uint_shl a s = Some v -> g_uint_shl n a s = v.
+Proof. exact g_uint_shl_eq. Qed.
+Print Assumptions C05_src_shl.
+Theorem C05_src_shr : forall n a s v, length a = n -> (1 <= n)%nat -> 64 * Z.of_nat n < 2 ^ 32 -> 0 <= s < 2 ^ 32 ->
+  l0_uint_shr a s = Some v -> g_uint_shr n a s = v.
+Proof. exact g_uint_shr_eq. Qed.
+Print Assumptions C05_src_shr.
+
+(** non-vacuity: the generated ladders and the bit length run on 3-limb inputs (shift 65 crosses a limb; 192 = BITS overflows) *)
+Example C05_src_ct_runs :
+  g_uint_overflowing_shl 3 [2 ^ 64 - 1; 1; 0] 65 = ([0; 2 ^ 64 - 2; 3], 2 ^ 64 - 1) /\
+  g_uint_overflowing_shl 3 [1; 0; 0] 192 = ([0; 0; 0], 0) /\
+  g_uint_overflowing_shr 3 [0; 2 ^ 64 - 2; 3] 65 = ([2 ^ 64 - 1; 1; 0], 2 ^ 64 - 1) /\
+  g_uint_shl 3 [5; 0; 0] 130 = [0; 0; 20] /\
+  g_uint_bits 3 [5; 0; 0] = 3 /\ g_uint_bits 3 [0; 8; 0] = 68 /\ g_uint_bits 3 [0; 0; 0] = 0 /\
+  g_slice_leading_zeros [5; 0; 0] = 189.
 Proof. vm_compute. repeat split. Qed.
